@@ -214,13 +214,13 @@ func init() {
 			{H: "H_C02_NoTrace", K: 28, U: 3, Covers: 2},
 			{H: "H_C02_MutexNoTrace", K: 28, U: 3, Covers: 1},
 			{H: "H_C02_WriterPreference", K: 26, U: 3, TimeoutSec: 900},
-			{H: "H_C02_WriterPreference2", K: 30, U: 3, Preempt: 3, TimeoutSec: 900},
 			{H: "H_C01_Mutex3", K: 26, U: 3, Only: "stuck/"},
 			{H: "H_C01_RW_2R1W", K: 26, U: 3, Only: "stuck/"},
 			{H: "H_C01_RW_1R2W", K: 26, U: 3, Only: "stuck/"},
 		},
 		Thorough: []Job{
 			{H: "H_C01_RWSym3", K: 30, U: 3, Only: "stuck/", TimeoutSec: 7000, QueryMs: 6000000},
+			{H: "H_C02_WriterPreference2", K: 30, U: 3, Preempt: 3, TimeoutSec: 7000, QueryMs: 6000000},
 		},
 		Bounds:  "3-4 goroutines per scenario: long-lived reader + cancelled write-waiter + late reader; holder + cancellable writer + cancellable reader followed by TryLock probes at quiescence (no trace); Mutex analogue; writer preference with ghost flags; plus the lost-wake-up (stuck at quiescence) class of the three C01 scenarios. K=26-28, U=3.",
 		Outside: "fairness among several grantable waiters; more than 4 goroutines",
